@@ -47,7 +47,20 @@ class Resp:
 # registry of live Store objects (transparent: only a weak reference is kept)
 
 _live_stores = weakref.WeakSet()
+_twin_stores = weakref.WeakSet()
 _registry_installed = False
+_twin_mode = [False]
+
+
+class twin_context:
+    """Stores created inside this context belong to a reference twin and are left out of fingerprints."""
+
+    def __enter__(self):
+        self.old = _twin_mode[0]
+        _twin_mode[0] = True
+
+    def __exit__(self, *a):
+        _twin_mode[0] = self.old
 
 
 def install_store_registry():
@@ -61,7 +74,7 @@ def install_store_registry():
     def __init__(self, *a, **kw):
         orig(self, *a, **kw)
         try:
-            _live_stores.add(self)
+            (_twin_stores if _twin_mode[0] else _live_stores).add(self)
         except TypeError:
             pass
 
